@@ -38,7 +38,7 @@ def rule_axis_info(ctx):
             continue
         v = p.value
         g = dict((T.show(a), pol) for a, pol in p.guards)
-        if any(a == ('cmp', 'is', AXIS, T.CONST_NONE) and pol for a, pol in p.guards):
+        if any(a == T.mkcmp('is', AXIS, T.CONST_NONE) and pol for a, pol in p.guards):
             if v != ('tuple', (T.CONST_NONE, T.CONST_NONE)):
                 ctx.violated('R1', fi, 'return ' + T.show(v), 'axis=None resolves to (None, None)', node=p.node)
             else:
@@ -135,7 +135,7 @@ def rule_apply(ctx):
                          node=p.node)
             continue
         if v == fc:
-            none = [pol for a, pol in p.guards if a == ('cmp', 'is', AXIS, T.CONST_NONE)]
+            none = [pol for a, pol in p.guards if a == T.mkcmp('is', AXIS, T.CONST_NONE)]
             nonarr = [pol for a, pol in p.guards if a[0] == 'call' and T.dotted(a[1]) == 'isinstance' and a[2][0] == fc]
             if none == [True] or nonarr == [False]:
                 ctx.holds('R6', 'axis None / non-array result returned as is')
@@ -157,7 +157,7 @@ def rule_apply(ctx):
                 continue
             cond = newaxes[3][0][2][0]
             el = newaxes[2]
-            if cond in (('cmp', '!=', ('attr', el, 'name'), NAME), ('cmp', '!=', NAME, ('attr', el, 'name'))):
+            if cond in (T.mkcmp('!=', ('attr', el, 'name'), NAME), T.mkcmp('!=', NAME, ('attr', el, 'name'))):
                 ctx.holds('R2', 'collapsed axis dropped by the name of the same resolution')
                 ctx.holds('R5', 'apply_along_axis carries obj.attrs')
             elif T.contains(cond, IDX):
@@ -235,14 +235,14 @@ def rule_nan_policy(ctx):
                              'with skipna=%s _get_func must return a NaN-%s function, returns %s' % (skipna, 'ignoring' if skipna else 'propagating', k), node=p.node)
                 ok = False
             if not skipna and p.value == ('name', '_median_with_nan'):
-                g = [pol for a, pol in p.guards if a == ('cmp', '==', FN, const('median'))]
+                g = [pol for a, pol in p.guards if a == T.mkcmp('==', FN, const('median'))]
                 if g != [True]:
                     ctx.violated('R4', fi, 'median dispatch', '_median_with_nan is for median only', node=p.node)
                     ok = False
         if not skipna:
             # median must not reach plain np.median (which ignores NaN below 50%)
             for p in rets:
-                g = [pol for a, pol in p.guards if a == ('cmp', '==', FN, const('median'))]
+                g = [pol for a, pol in p.guards if a == T.mkcmp('==', FN, const('median'))]
                 if g == [True] and p.value != ('name', '_median_with_nan'):
                     ctx.violated('R4', fi, 'median [skipna=False]', 'median with skipna=False must use the NaN-propagating _median_with_nan', node=p.node)
                     ok = False
@@ -318,7 +318,7 @@ def rule_percentile(ctx):
         for d in das:
             ax = T.kw(d, 'axes')
             if not (ax is not None and ax[0] == 'comp' and ax[3][0][1] == ('attr', A, 'axes') and len(ax[3][0][2]) == 1
-                    and ax[3][0][2][0] == ('cmp', '!=', ('attr', ax[2], 'name'), nm)):
+                    and ax[3][0][2][0] == T.mkcmp('!=', ('attr', ax[2], 'name'), nm)):
                 ctx.violated('R7', fi, T.show(d)[:140], 'the surviving axes are a.axes without the axis of the same resolution (by name)', node=p.node)
                 okax = False
         if not okax:
@@ -333,7 +333,7 @@ def rule_percentile(ctx):
         if st:
             c = st[0]
             keys, axn = T.kw(c, 'keys'), T.kw(c, 'axis')
-            none = [pol for a, pol in p.guards if a == ('cmp', 'is', P_('newaxis'), T.CONST_NONE)]
+            none = [pol for a, pol in p.guards if a == T.mkcmp('is', P_('newaxis'), T.CONST_NONE)]
             want_ax = ('binop', '+', nm, const('_percentile')) if none == [True] else P_('newaxis')
             if keys != PCT or axn != want_ax:
                 ctx.violated('R7', fi, T.show(c)[:160], "several percentiles are stacked along a new first axis named '<axis>_percentile' and labelled by pct",
